@@ -16,7 +16,8 @@ git -C /repo checkout -- .
 git -C /repo clean -fdq -- . >/dev/null 2>&1
 # never leave generated tables or binaries built from the patched tree behind
 (cd /verif/go && GOFLAGS=-mod=mod GOPROXY=off go run ./cmd/gensites -repo /repo -out /verif/lean/Gen/C14Sites.lean >/dev/null 2>&1)
-(cd /repo/cmd/atlas && GOFLAGS=-mod=mod GOPROXY=off go build -tags verif -o /verif/.build/atlas . >/dev/null 2>&1)
+# (skipped while tools/allseeds.sh runs - it rebuilds once at the end; every check that uses the binary builds it itself)
+[ -f /verif/.work/allseeds.running ] || (cd /repo/cmd/atlas && GOFLAGS=-mod=mod GOPROXY=off go build -tags verif -o /verif/.build/atlas . >/dev/null 2>&1)
 echo "rc=$rc"
 grep -E "^(VIOLATION|KNOWN-FINDING)" /verif/.work/seedtest.out | cut -c1-400 | head -5
 exit 0
